@@ -5,6 +5,7 @@ import math
 from hypothesis import strategies as st
 
 from pv import gen
+from pv.specs import spec_wires as specs_wires
 
 PI = math.pi
 CLIFF_T = {"Hadamard": (0, 1), "S": (0, 1), "T": (0, 1), "PauliX": (0, 1), "PauliY": (0, 1), "PauliZ": (0, 1),
@@ -31,11 +32,31 @@ def case_for(draw, name):
         wires, ops = _general(draw)
         opts = {"recursive": draw(st.booleans())}
     elif name == "merge_rotations":
-        wires, ops = _general(draw)
+        if draw(st.booleans()):
+            # only composable rotations, high derivation rate: many adjacent same-class pairs whose angles add up to
+            # 0 / pi / 2*pi / 4*pi (periodicity slips are invisible elsewhere)
+            wires = draw(_wires(1, 4))
+            rot = {k: v for k, v in gen.ALL_GATES.items() if v[0] >= 1 and k not in ("U2", "U3")}
+            ops = draw(gen.op_list(wires, rot, 8, p_derive=0.6))
+        else:
+            wires, ops = _general(draw)
+        # adjacent same-class pairs whose angles add up to 0, +-2*pi or 4*pi exactly
+        for _ in range(draw(st.integers(0, 2))):
+            g = draw(gen.gate(wires, {k: v for k, v in gen.ALL_GATES.items() if v[0] == 1}, gen.generic_angles()))
+            t = draw(st.sampled_from([2 * PI, -2 * PI, 4 * PI, 0.0, 2 * PI]))
+            pos = draw(st.integers(0, len(ops)))
+            ops[pos:pos] = [g, {**g, "p": [round(t - g["p"][0], 9)]}]
         inc = draw(st.sampled_from([None, None, ["RX", "CRX"], ["Rot", "RZ", "PhaseShift"], ["RY"]]))
         opts = {"include_gates": inc}
     elif name == "commute_controlled":
-        wires, ops = _general(draw, min_wires=2)
+        wires = draw(_wires(2, 3))
+        pool = {k: gen.ALL_GATES[k] for k in ("CNOT", "CZ", "CRX", "CRY", "CRZ", "Toffoli", "CY", "PauliX", "PauliY", "PauliZ", "S", "T",
+                                              "RZ", "RX", "RY", "PhaseShift", "Hadamard", "SX")}
+        ops = draw(gen.op_list(wires, pool, 10, p_derive=0.1)) if draw(st.booleans()) else _general(draw, min_wires=2)[1]
+        for o in ops:
+            for w in specs_wires(o):
+                if w not in wires:
+                    wires = wires + [w]
         opts = {"direction": draw(st.sampled_from(["left", "right"]))}
     elif name == "single_qubit_fusion":
         wires, ops = _general(draw)
